@@ -476,6 +476,16 @@ class Engine(StmtMixin, EvalMixin, Interp):
         X["itertools.zip_longest"] = self.ext_zip_longest
         X["itertools.groupby"] = self.ext_groupby
         X["itertools.product"] = self.ext_product
+        # the operator module: function forms of the binary / in-place operators (same semantics as the syntax)
+        _bin = {"add": ast.Add, "sub": ast.Sub, "mul": ast.Mult, "floordiv": ast.FloorDiv, "mod": ast.Mod,
+                "or_": ast.BitOr, "and_": ast.BitAnd, "xor": ast.BitXor}
+        for _n, _op in _bin.items():
+            X["operator." + _n] = (lambda interp, a, k, _op=_op: interp.binop(_op(), a[0], a[1]))
+        for _n, _op in {"iadd": ast.Add, "isub": ast.Sub, "ior": ast.BitOr, "iand": ast.BitAnd}.items():
+            X["operator." + _n] = (lambda interp, a, k, _op=_op: interp.aug(_op(), a[0], a[1]))
+        for _n, _sym in {"lt": "<", "le": "<=", "gt": ">", "ge": ">="}.items():
+            X["operator." + _n] = (lambda interp, a, k, _s=_sym: interp.sym_lt(_s, a[0], a[1]))
+        X["operator.eq"] = lambda interp, a, k: interp.sym_eq(a[0], a[1])
         X["warnings.warn"] = lambda interp, a, k: None
         X["dataclasses.astuple"] = lambda interp, a, k: tuple(
             a[0].attrs[f] for c in reversed(a[0].cls.mro(interp.repo)) for f in _dc_fields(c))
@@ -656,6 +666,13 @@ class Engine(StmtMixin, EvalMixin, Interp):
                     raise PyExc("KeyError", repr(args[0]))
             if name == "setdefault":
                 return v.setdefault(*args)
+            if name == "clear":
+                v.clear()
+                return None
+            if name == "popitem":
+                if not v:
+                    raise PyExc("KeyError", "popitem(): dictionary is empty")
+                return v.popitem()
         if isinstance(v, (set, frozenset)):
             if name in ("add", "discard", "remove", "update", "union", "intersection", "difference", "copy",
                         "issubset", "issuperset", "isdisjoint", "pop", "clear", "intersection_update",
